@@ -22,9 +22,63 @@ def run(tier, seed):
     import shutil
     shutil.copy(os.path.join(vlib.VERIF, "harness/wat/c04_ctl.wat"), os.path.join(wdir, "c04ctl.wat"))
     ov = vlib.make_overlay(c.scratch, [{"dir": WH, "name": "wh"}, {"dir": WB, "name": "main", "rt": False}])
-    vlib.build_wasm(c.scratch, ov, [["wat2wasm", os.path.join(wdir, n + ".wat"), os.path.join(wdir, n + ".wasm")] for n in ("c04ops", "c04mem", "c04ctl")])
+    mods = ("c04ops", "c04mem", "c04ctl")
+    failed = vlib.build_wasm_keepgoing(c.scratch, ov, [["wat2wasm", os.path.join(wdir, n + ".wat"), os.path.join(wdir, n + ".wasm")] for n in mods])
+    asm_violations = []
+    for i, err in failed.items():
+        name = mods[i]
+        if name == "c04ctl":
+            asm_violations.append((name, "whole module", err, open(os.path.join(wdir, name + ".wat")).read()))
+            continue
+        # the tree's assembler rejects (or crashes on) a valid generated module: find the functions responsible,
+        # report each as a violation (a valid module must be assembled), and carry on with the others
+        text = open(os.path.join(wdir, name + ".wat")).read()
+        head, funcs = wasmgen.split_functions(text)
+        singles = []
+        for k, f in enumerate(funcs):
+            pth = os.path.join(wdir, "%s_f%d.wat" % (name, k))
+            open(pth, "w").write("\n".join(head + [f, ")"]) + "\n")
+            singles.append(["wat2wasm", pth, pth[:-4] + ".wasm"])
+        bad = vlib.build_wasm_keepgoing(c.scratch, ov, singles)
+        good = [f for k, f in enumerate(funcs) if k not in bad]
+        for k, e in bad.items():
+            asm_violations.append((name, funcs[k].split('"')[1], e, "\n".join(head + [funcs[k], ")"]) + "\n"))
+        open(os.path.join(wdir, name + ".wat"), "w").write("\n".join(head + good + [")"]) + "\n")
+        vlib.build_wasm(c.scratch, ov, [["wat2wasm", os.path.join(wdir, name + ".wat"), os.path.join(wdir, name + ".wasm")]])
+        c.notes.append("NOTE: %s reassembled without %d function(s) the assembler rejects" % (name, len(bad)))
+    import json, re as _re
+    for name, fn, err, wat in asm_violations:
+        key = "assemble/%s/%s/asm/valid-module-is-assembled" % (name, fn)
+        if key in c.known:
+            c.known_hits.append((key, c.known[key]))
+            continue
+        rdir = os.path.join(vlib.VERIF, "replays", "C04")
+        os.makedirs(rdir, exist_ok=True)
+        rp = os.path.join(rdir, _re.sub(r"[^A-Za-z0-9_.-]", "_", key) + ".json")
+        json.dump({"property": "C04", "engine": "wbuild", "label": "asm/valid-module-is-assembled", "function": fn, "error": err, "wat": wat,
+                   "cmd": "assemble the text in 'wat' with the tree's wat2wasm (go run ./internal/zzverif/wbuild wat2wasm in.wat out.wasm under the check's overlay)"}, open(rp, "w"), indent=1)
+        c.violations.append((key, rp))
+    skip = set(fn for _, fn, _, _ in asm_violations)
     vlib.REPLAY_ENV["VF_WASM_DIR"] = wdir
     c.extra_cov["programs"] = len(ops)
     c.run_unit(WH, "wh", harnesses=["VfH_ops", "VfH_mem", "VfH_ctl"], extra_pkgs=[{"dir": WB, "name": "main", "rt": False}],
                opts={"wasm": ",".join("%s=%s" % (n, os.path.join(wdir, n + ".wasm")) for n in ("c04ops", "c04mem", "c04ctl")), "samples": 2})
     return c.finish()
+
+
+def replay(path):
+    import json, shutil
+    rec = json.load(open(path))
+    if rec.get("engine") != "wbuild":
+        return vlib.replay_file("C04", path)
+    sc = vlib.scratch_dir("C04-replay")
+    try:
+        ov = vlib.make_overlay(sc, [{"dir": WB, "name": "main", "rt": False}])
+        wat = os.path.join(sc, "in.wat")
+        open(wat, "w").write(rec["wat"])
+        failed = vlib.build_wasm_keepgoing(sc, ov, [["wat2wasm", wat, os.path.join(sc, "out.wasm")]])
+        print(failed.get(0, "assembled without error"))
+        print("REPRODUCED" if failed else "NOT-REPRODUCED")
+        return 1 if failed else 0
+    finally:
+        shutil.rmtree(sc, ignore_errors=True)
